@@ -329,6 +329,8 @@ def run(ctx):
             n_constraints += max(0, k - 1)
             for desc, why in bad:
                 ctx.violation({'kind': why.split(':')[0], 'class': cn, 'constraint': desc, 'constraint_kind': desc[0],
+                               'boolean_in_other_letter_case': bool(desc[0] in ('attr-ill-typed', 'text-ill-typed') and 'boolean' in desc[:3] and
+                                                                    any(v in desc for v in ('TRUE', 'True', 'fAlse'))),
                                'exc': why.split(':')[1] if ':' in why else None}, {})
     return {
         'level': 'exploration',
